@@ -11,7 +11,7 @@ import (
 // WireElems returns the wire.Build elements (Go expressions) needed for one
 // injector: wire rejects unused providers, bindings, values and fields, so
 // only what the reference need-analysis marks as needed is listed.
-func (s *Spec) WireElems(in *Injector) []string {
+func (s *Spec) wireUnits(in *Injector) []string {
 	ref := s.Interpret(in)
 	neededType := map[int]bool{in.Ret: true}
 	for _, pid := range ref.Needed {
@@ -34,12 +34,15 @@ func (s *Spec) WireElems(in *Injector) []string {
 		p := s.Provs[pid]
 		switch p.Kind {
 		case PFunc:
-			out = append(out, fn(p))
+			unit := fn(p)
 			for _, b := range p.Binds {
 				if neededType[b] {
-					out = append(out, fmt.Sprintf("wire.Bind(new(%s), new(%s))", s.Expr(b, ""), s.Expr(p.Results[0], "")))
+					// a Bind must live in a set that also contains the provider of the
+					// concrete type: keep them in one unit ("\x00" separates the elements)
+					unit += "\x00" + fmt.Sprintf("wire.Bind(new(%s), new(%s))", s.Expr(b, ""), s.Expr(p.Results[0], ""))
 				}
 			}
+			out = append(out, unit)
 		case PValue:
 			if p.IfaceVal {
 				out = append(out, fmt.Sprintf("wire.InterfaceValue(new(%s), %s)", s.Expr(p.Binds[0], ""), p.ValExpr))
@@ -110,8 +113,20 @@ func (s *Spec) EmitWire(r *rand.Rand, extraArg bool) map[string]string {
 	setSeq := 0
 	for ii, in := range s.Injectors {
 		ref := s.Interpret(in)
-		elems := s.WireElems(in)
-		r.Shuffle(len(elems), func(i, j int) { elems[i], elems[j] = elems[j], elems[i] })
+		units := s.wireUnits(in)
+		r.Shuffle(len(units), func(i, j int) { units[i], units[j] = units[j], units[i] })
+		// most provider+Bind units stay together; sometimes the Bind moves to the
+		// top level of wire.Build (legal: Build's set includes the referenced sets)
+		var elems, topBinds []string
+		for _, u := range units {
+			parts := strings.Split(u, "\x00")
+			if len(parts) > 1 && r.Intn(5) == 0 {
+				elems = append(elems, parts[0])
+				topBinds = append(topBinds, parts[1:]...)
+				continue
+			}
+			elems = append(elems, strings.Join(parts, ",\n\t"))
+		}
 		// group some elements into named / inline / nested sets
 		var top []string
 		i := 0
@@ -146,6 +161,7 @@ func (s *Spec) EmitWire(r *rand.Rand, extraArg bool) map[string]string {
 			}
 			i += n
 		}
+		top = append(top, topBinds...)
 		var ps []string
 		for ai, t := range ref.Args {
 			ps = append(ps, fmt.Sprintf("a%d %s", ai, s.Expr(t, "")))
@@ -195,4 +211,13 @@ func (s *Spec) EmitWire(r *rand.Rand, extraArg bool) map[string]string {
 		files["types.go"] += "\ntype UnusedInjectorArg struct{ n int }\n"
 	}
 	return files
+}
+
+// WireElems lists the wire.Build elements of an injector (flat, for descriptions).
+func (s *Spec) WireElems(in *Injector) []string {
+	var out []string
+	for _, u := range s.wireUnits(in) {
+		out = append(out, strings.Split(u, "\x00")...)
+	}
+	return out
 }
